@@ -3723,3 +3723,40 @@ E("EQ-fetch-update-compares-with-eq", _TXW, """        if let Some(value) = upda
         }
 
         Ok(prev)""", props=["C08", "C07"])
+
+# ---- discipline rules (rules/discipline.py): error swallowing, early loop exits, element-dropping adaptors
+B("SW-C08-tx-commit-ignores-batch-commit-error", "C08", "C08:R-C08.11:tx::write_tx::BaseTransaction::commit", _TXW,
+  "        batch.commit()?;", "        batch.commit().ok();")
+B("SW-C13-tx-commit-ignores-batch-commit-error", "C13", "C13:R-C13.10:tx::write_tx::BaseTransaction::commit", _TXW,
+  "        batch.commit()?;", "        batch.commit().ok();")
+B("SW-C09-empty-batch-barrier-error-swallowed", "C09", "C09:R-C09.10:batch::WriteBatch::commit", BATCH,
+  "                self.db.persist(mode)?;", "                self.db.persist(mode).ok();")
+B("SW-C04-recover-keyspaces-error-swallowed", "C04", "C04:R-C04.10:db::Database::recover", DB,
+  "        recover_keyspaces(&db, &meta_keyspace)?;", "        recover_keyspaces(&db, &meta_keyspace).ok();")
+B("SW-C03-truncate-to-sync-error-swallowed", "C03", "C03:R-C03.14:journal::batch_reader::JournalBatchReader::truncate_to", "src/journal/batch_reader.rs",
+  "        file.sync_all()?;", "        file.sync_all().ok();")
+B("SW-C17-marker-sync-error-swallowed", "C17", "C17:R-C17.8:db::Database::create_new", DB,
+  "        marker.sync_all()?;", "        marker.sync_all().ok();")
+B("SW-C04-replay-stops-at-first-unknown-keyspace", "C04", "C04:R-C04.11:db::Database::recover", DB,
+  """                        let Some(keyspace) = keyspaces.get(&keyspace_name) else {
+                            continue;
+                        };""", """                        let Some(keyspace) = keyspaces.get(&keyspace_name) else {
+                            break;
+                        };""", nth=0)
+B("SW-C10-seqno-map-skips-a-keyspace", "C10", "C10:R-C10.9:supervisor::Supervisor::build_seqno_map", "src/supervisor.rs",
+  "        for keyspace in keyspaces.values() {", "        for keyspace in keyspaces.values().skip(1) {")
+B("SW-C11-restore-skips-a-keyspace", "C11", "C11:R-C11.6:db::Database::recover", DB,
+  "                for keyspace in keyspaces.values() {\n                    let size = keyspace.tree.active_memtable().size();", "                for keyspace in keyspaces.values().skip(1) {\n                    let size = keyspace.tree.active_memtable().size();")
+B("SW-C05-pullup-above-visible-seqno", "C05", "C05:R-C05.5:snapshot_tracker::SnapshotTracker::pullup:pullup-stays-below", "src/snapshot_tracker.rs",
+  "                self.seqno.get().saturating_sub(1),", "                self.seqno.get().saturating_add(1),")
+B("SW-C07-optimistic-fetch-update-returns-on-conflict", "C07", "C07:R-C07.12", "src/tx/optimistic/keyspace.rs",
+  "            let prev = tx.fetch_update(self.inner(), key.clone(), &mut f)?;\n            if tx.commit()?.is_ok() {", "            let prev = tx.fetch_update(self.inner(), key.clone(), &mut f)?;\n            if tx.commit()?.is_err() {")
+E("EQ-recover-keyspaces-error-matched", DB, "        recover_keyspaces(&db, &meta_keyspace)?;", """        if let Err(e) = recover_keyspaces(&db, &meta_keyspace) {
+            return Err(e);
+        }""", props=["C04", "C02", "C13", "C12", "C17"])
+E("EQ-replay-skip-as-if-let", DB, """                        let Some(keyspace) = keyspaces.get(&keyspace_name) else {
+                            continue;
+                        };""", """                        let keyspace = match keyspaces.get(&keyspace_name) {
+                            Some(keyspace) => keyspace,
+                            None => continue,
+                        };""", props=["C04", "C02", "C12", "C11", "C03"], nth=0)
